@@ -70,8 +70,8 @@ def main():
         meta = {
             "id": sid,
             "breaks_property": prop,
-            "round": 2 if tag else 1,
-            "origin": "independent sub-agent given only the property text and a scratch worktree" + (" (round 2: told what round 1 produced and asked for other mechanisms)" if tag else ""),
+            "round": int(tag[1:]) if tag[1:].isdigit() else (2 if tag else 1),
+            "origin": "independent sub-agent given only the property text and a scratch worktree" + (" (later rounds: told what earlier rounds produced and asked for other mechanisms)" if tag else ""),
             "summary": first.lstrip("# ").strip(),
             "needs_to_manifest": needs,
             "confirmed_by_me": {
